@@ -52,7 +52,8 @@ func refLevenshtein(a, b string) int {
 	return prev[len(t)]
 }
 
-var c20Alphabet = []rune{'a', 'b', 'c', 'd', 'é', '中'}
+// (é/è, д/н and 中/丟 share their UTF-8 lead byte; é/ũ share the trail byte)
+var c20Alphabet = []rune{'a', 'b', 'c', 'd', 'é', 'è', '中', '丟', 'д', 'н', 'ũ'}
 
 func genC20Word(t *rapid.T, label string, min, max int) string {
 	rs := rapid.SliceOfN(rapid.SampledFrom(c20Alphabet), min, max).Draw(t, label)
@@ -299,6 +300,6 @@ func c20Oracle(c *C20Case) string {
 }
 
 func TestC20(t *testing.T) {
-	S("C20").Rule = "1-6 command names (len 1-8 over {a,b,c,d,é,中}, ~20% hidden, alternating tag/programmatic declaration) x word (absent | random | 1-3 edits of a name); oracle: own rune Levenshtein + parsed message. non-trivial: word is no command name and (nearest visible distance <= 3 or multi-byte involved), or command-required with >= 2 visible; distinct by (names, hidden, word)"
+	S("C20").Rule = "1-6 command names (len 1-8 over {a,b,c,d,é,è,ũ,д,н,中,丟}, ~20% hidden, alternating tag/programmatic declaration) x word (absent | random | 1-3 edits of a name); oracle: own rune Levenshtein + parsed message. non-trivial: word is no command name and (nearest visible distance <= 3 or multi-byte involved), or command-required with >= 2 visible; distinct by (names, hidden, word)"
 	runProp(t, "C20", genC20, c20Oracle)
 }
